@@ -1,6 +1,6 @@
 --------------------------------- MODULE Hex ---------------------------------
 (* Lower-case hex rendering and strict hex parsing over character codes.     *)
-EXTENDS Bytes
+EXTENDS BytesCore
 
 HexDigit(v) == IF v < 10 THEN 48 + v ELSE 87 + v          \* 0-9 a-f
 HexVal(c) ==
